@@ -56,7 +56,12 @@ OPEN_CLI = [
     "(Properties/C12Json.lean: C12_cost_line_text_thl / _exh / _spfs / _uspfs — one line per result, every line parses "
     "to a dictionary read back with the printed cost); floats other than +-Infinity, NaN and strings with lone "
     "surrogates are outside the JSON model (to_dict writes none). Left: (ii) `--solutions any` inside each family's coherent region "
-    "only (outside, ANY in ALL fails: C05_any_incoherent_witness); `lca` not covered (single result)",
+    "only (outside, ANY in ALL fails: C05_any_incoherent_witness); `lca` and `exh` are covered by "
+    "Properties/C12BridgeExtra.lean (C12_cost_line_lca, C12_all_superset_any_exh, C12_minCostText_inj: the printed k "
+    "determines the cost); (iii) Review H: the embedded trees of these theorems are BINARY and UNCOLOURED (coloured "
+    "inputs are exercised by the check and by the C11 round-trip theorems, not by the composed cost-line theorems, "
+    "unless Properties/C12Colour.lean is present) and the names are ASSUMED distinct and safe (`Naming.Ok`), not "
+    "derived from label_internal's theorems",
     "eval_cost: no theorem relates the shunting-yard parser to Python's grammar (tie only); proved: totality, "
     "no exception other than the three listed, the algebra of the values, and the print/parse round trip on "
     "fully-parenthesised token strings (clause 1 of C12_eval_cost)",
